@@ -14,6 +14,12 @@ def codeCfg : Cfg := ⟨Generated.sseClosesChannelOnExit, Generated.sseDeliveryS
 /-- T1: the handler does not close the event channel and the delivery goroutine can always take its done branch. -/
 theorem C19_wiring_pinned : codeCfg = Proofs.Sse.safeCfg := by decide
 
+/-- T1: a pending delivery ends in exactly one of two ways - the client takes the event, or the client is gone. The
+    delivery goroutine's select has these two cases and nothing else (no default, no timer): the model's `deliver` /
+    `drop` are the only transitions out of `pending`, so "nothing is dropped" (C19_delivery) speaks about the code. -/
+theorem C19_delivery_never_gives_up :
+    Generated.sseDeliverySelectCases = 2 ∧ Generated.sseDeliverySelectHasDefault = false := by decide
+
 /-- No schedule of subscriptions, broadcasts, deliveries, cancellations and exits panics (no send on a closed
     channel); the broadcaster is never blocked (`broadcast` is enabled in every state by construction). -/
 theorem C19_safe (sched : List Action) : (run codeCfg {} sched).isSome = true := by
